@@ -92,6 +92,46 @@ func checkC07(c wireCase) error {
 	if err := verifyGroupsWith(m.headers().Unprotected, c.Spec.Groups, m.parent(len(c.Wire)%2 == 0), "msg", wrap); err != nil {
 		return err
 	}
+	// the same conforming headers, taken in through the public Headers API into a Headers value that
+	// held the headers of another message a moment ago (a receiver that keeps one Headers value): same
+	// outcome as with the message decoder
+	if env, err := refcose.ParseEnv(c.Spec.Kind, c.Wire); err == nil {
+		used := func(prot, unprot []byte) (cose.Headers, error) {
+			hh := cose.Headers{RawProtected: []byte{0x4e, 0xa3, 0x01, 0x38, 0x63, 0x05, 0x42, 0x01, 0x02, 0x18, 0x63, 0x63, 'o', 'l', 'd'}, RawUnprotected: []byte{0xa1, 0x04, 0x41, 0x09}}
+			if err := hh.UnmarshalFromRaw(); err != nil {
+				return hh, fmt.Errorf("harness: prior headers: %v", err)
+			}
+			hh.RawProtected, hh.RawUnprotected = append([]byte{}, prot...), append([]byte{}, unprot...)
+			if err := hh.UnmarshalFromRaw(); err != nil {
+				return hh, finding("rejected/headers-api", "Headers.UnmarshalFromRaw refuses the header buckets of a conforming %v: %v\nwire=%x", c.Spec.Kind, err, []byte(c.Wire))
+			}
+			return hh, nil
+		}
+		payload := append([]byte{}, c.Spec.Payload...)
+		switch {
+		case m.sm == nil:
+			hh, err := used(env.Prot.Raw(), env.Unprot.Raw())
+			if err != nil {
+				return err
+			}
+			m2 := &cose.Sign1Message{Headers: hh, Payload: payload, Signature: append([]byte{}, env.Sig.Content...)}
+			if err := m2.Verify(c.Spec.Ext(), vs[0]); err != nil {
+				return finding("verify/headers-api", "a conforming %v whose buckets were taken in through Headers.UnmarshalFromRaw (into a Headers value used before) does not verify: %v (protected now %v)\nwire=%x", c.Spec.Kind, err, hh.Protected, []byte(c.Wire))
+			}
+		default:
+			for i, se := range env.Sigs {
+				hh, err := used(se.Prot.Raw(), se.Unprot.Raw())
+				if err != nil {
+					return err
+				}
+				sg := &cose.Signature{Headers: hh, Signature: append([]byte{}, se.Sig.Content...)}
+				if err := sg.Verify(vs[i], env.Prot.Raw(), payload, c.Spec.Ext()); err != nil {
+					return finding("verify/headers-api", "signer %d of a conforming COSE_Sign whose buckets were taken in through Headers.UnmarshalFromRaw (into a Headers value used before) does not verify: %v (protected now %v)\nwire=%x", i, err, hh.Protected, []byte(c.Wire))
+				}
+			}
+		}
+		stats.Class("headers-api-into-used-value")
+	}
 	if m.sm != nil {
 		if len(m.sm.Signatures) != len(c.Spec.Sigs) {
 			return finding("nsig", "%d signatures decoded, want %d", len(m.sm.Signatures), len(c.Spec.Sigs))
